@@ -18,16 +18,22 @@ require pgregory.net/rapid v1.3.0
 replace verif/sim => $V_SRC/sim
 replace github.com/github/go-pipe => $V_SRC/sim/third_party/go-pipe
 EOM
-{
-  echo '{"Replace":{'
-  first=1
-  for f in $V_SRC/glue/*.go; do
-    [ $first = 1 ] || echo ','
-    first=0
-    echo "\"$R/$(basename $f)\":\"$f\""
-  done
-  echo '}}'
-} > $B/overlay.json
+# instrumented copies of git-sizer's own sources (yield points at locks, channel
+# operations and goroutine starts), generated from the tree being checked
+rm -rf $B/inst && mkdir -p $B/inst
+if [ -x $V/bin/yieldinst ]; then
+  $V/bin/yieldinst -repo $R -out $B/inst > $B/inst/overlay-part.json
+else
+  echo '{}' > $B/inst/overlay-part.json
+fi
+python3 - "$R" "$V_SRC" "$B" <<'PY'
+import json,sys,glob,os
+R,V,B=sys.argv[1:4]
+rep=json.load(open(B+'/inst/overlay-part.json'))
+for f in glob.glob(V+'/glue/*.go'):
+    rep[R+'/'+os.path.basename(f)]=f
+json.dump({"Replace":rep},open(B+'/overlay.json','w'),indent=1)
+PY
 RACE=""
 [ "$2" = race ] && RACE="-race"
 OUT=$(realpath -m "$1")
